@@ -306,7 +306,9 @@ def enum_shapes(size, full=True, _memo={}):
 
 
 def interesting(shape, max_leaves=4, max_offs=2):
-    n, nl, no, ntag, kinds = shape_stats(shape)
+    """Counts are taken on the *numbered* shape (unnumbered leaves / offsets
+    are all the same placeholder)."""
+    n, nl, no, ntag, kinds = shape_stats(number(shape))
     if nl > max_leaves or no > max_offs or nl == 0:
         return False
     return True
